@@ -13,7 +13,7 @@ RULE = ("pairs of lint-clean blackbox-free circuits (<= 9 nodes each, all gate t
         "the shared ones incl. a single endpoint and internal nodes as endpoints; sets and lists; plus a rejection stream (blackboxes, "
         "names missing in one circuit, node names sat / dif_x / c0_x that clash, duplicate endpoints); non-trivial = accepted miter with "
         "at least one gate per copy; distinct = canonical case hash")
-EXPLANATION = ("miter model written through the API model; its closed form proved to have the stated semantics; model tied to tx.miter by "
+EXPLANATION = ("miter model written through the API model and proved to have the stated semantics (all accepted calls); model tied to tx.miter by "
                "correspondence; the property is decided on every returned miter by exhaustive evaluation of all free-node valuations")
 SHARD = 20
 HASHSEEDS = {"quick": [0, 1], "thorough": [0, 1, 2]}
@@ -200,7 +200,7 @@ def gen_reject(rng):
 
 
 def generate(rng, tier):
-    n = 150 if tier == "quick" else 1500
+    n = 130 if tier == "quick" else 1200
     return [gen_pair(rng) if rng.random() < 0.85 else gen_reject(rng) for _ in range(n)]
 
 
@@ -275,12 +275,14 @@ def finding_signature(case, obs):
 
 
 CLAIMED = True
-LEVEL_TEXT = ("Theorem over the model: for blackbox-free circuits, tied startpoints S and compared nodes E, a valuation is consistent for the "
-              "miter's closed form iff its pull-backs along c0_/c1_ are consistent for strip_io(c0)/strip_io(c1), tied startpoints are "
-              "shared, every dif_e is the xor of the two copies and sat is their disjunction; hence sat = 1 iff some compared node differs, "
-              "and no consistent valuation has sat = 1 iff the circuits agree on E (corollary for any sound and complete solver, a Section "
-              "variable). The step from the API-call model to the closed form, and from the model to tx.miter, is checked per generated case.")
+LEVEL_TEXT = ("Theorems over the model of tx.miter (written call by call on the API model), for every accepted call incl. defaults, self-miter "
+              "and empty comparison: inputs = tied startpoints, sat the only output; a valuation is consistent for the miter iff its "
+              "pull-backs along c0_/c1_ are consistent for strip_io(c0)/strip_io(c1), tied startpoints are shared, every dif_e is the xor of "
+              "the two copies and sat is their disjunction; hence sat = 1 iff some compared node differs, and for every sound and complete "
+              "solve (a quantified function, not an axiom) solve(miter, sat) is False iff the circuits agree on E for all valuations that "
+              "agree on the tied startpoints. The model is tied to tx.miter by correspondence; the property is also decided on every "
+              "returned miter by an exhaustive sweep whose completeness is proved.")
 LEVEL_NOTE = ("Trusted: Coq kernel + vm_compute, std++, the API model of Base/Api.v (tied to circuit.py by correspondence here and in C07), "
               "Gen_types translator shapes, harness canonicalisation. External: SAT solver as Section variable (sound + complete). "
               "Boundary: an explicitly empty startpoint/endpoint collection is indistinguishable from the default in the code and is modelled so.")
-TECHNIQUE = "Coq proof (miter closed-form semantics, composition lemmas) + vm_compute correspondence and exhaustive-valuation oracle"
+TECHNIQUE = "Coq proof (miter semantics and unsat-iff-equivalent corollary over the API model) + vm_compute correspondence and exhaustive-valuation oracle"
